@@ -249,6 +249,23 @@ def staticOpCmpSpecial (st : St) (srcToks argToks outToks : List String) : Strin
      | _, _, _ => "skip unresolved-input")
   | _, _, _ => "skip bad-record"
 
+/-- FC <tid> | <op> <left class> <right class, or err> | <out> — generated Compare on a non-pointer float element
+holding an IEEE special value: `genCmpSpecial`. -/
+def genOpCmpSpecial (st : St) (argToks outToks : List String) : String :=
+  match argToks, outToks with
+  | [opTok, lTok, rTok], [outTok] =>
+    (match parseFClass lTok, opTok.toInt?, parseCmpOut outTok with
+     | some l, some op, some impl =>
+       let r : Option (Option FClass) := if rTok == "err" then some none else (parseFClass rTok).map some
+       (match r with
+        | some r =>
+          let m := genCmpSpecial op l r
+          if st.mode == "nopanic" then (if impl == .panic then "dev-viol " ++ showCmpOut m else "agree")
+          else if impl == m then "agree" else "dev-viol " ++ showCmpOut m
+        | none => "skip unresolved-input")
+     | _, _, _ => "skip unresolved-input")
+  | _, _ => "skip bad-record"
+
 /-- XD | <src l> | <src r> | <out(l,r)> <out(r,l)> -/
 def staticOpDeq (st : St) (lToks rToks outToks : List String) : String :=
   match outToks with
